@@ -116,6 +116,7 @@ type xkbIn struct {
 type xkbCase struct {
 	Comp string `json:"comp"`
 	Leg  string `json:"leg,omitempty"`
+	Runs int    `json:"runs,omitempty"` // runs in the first process (default XKB_RUNS)
 	In   xkbIn  `json:"in"`
 }
 
@@ -189,7 +190,10 @@ func xkbCaseJSON(c xkbCase) map[string]interface{} {
 	return in
 }
 
-func xkbReadCases(t *testing.T, path string) []xkbCase {
+func xkbReadCases(t *testing.T, path string) []xkbCase { return xkbReadCasesFrom(t, path, 0, -1) }
+
+// xkbReadCasesFrom decodes the cases lo..hi-1 of the file (hi < 0: to the end); the others are left empty.
+func xkbReadCasesFrom(t *testing.T, path string, lo, hi int) []xkbCase {
 	f, err := os.Open(path)
 	if err != nil {
 		t.Fatal(err)
@@ -203,6 +207,10 @@ func xkbReadCases(t *testing.T, path string) []xkbCase {
 		if len(line) == 0 {
 			continue
 		}
+		if n := len(cases); n < lo || (hi >= 0 && n >= hi) {
+			cases = append(cases, xkbCase{})
+			continue
+		}
 		if line[0] == '"' { // TLC's CSVWrite of ToJson(..) yields a JSON string literal containing JSON
 			var s string
 			if err := json.Unmarshal(line, &s); err != nil {
@@ -213,6 +221,7 @@ func xkbReadCases(t *testing.T, path string) []xkbCase {
 		var raw struct {
 			Comp string          `json:"comp"`
 			Leg  string          `json:"leg"`
+			Runs int             `json:"runs"`
 			In   json.RawMessage `json:"in"`
 		}
 		if err := json.Unmarshal(line, &raw); err != nil {
@@ -221,7 +230,7 @@ func xkbReadCases(t *testing.T, path string) []xkbCase {
 		if !xkbMine(raw.Comp) { // a case of the other package's harness
 			continue
 		}
-		c := xkbCase{Comp: raw.Comp, Leg: raw.Leg}
+		c := xkbCase{Comp: raw.Comp, Leg: raw.Leg, Runs: raw.Runs}
 		if err := json.Unmarshal(raw.In, &c.In); err != nil {
 			t.Fatalf("bad case %s: %v", line, err)
 		}
@@ -570,8 +579,9 @@ func TestVerifXkbChild(t *testing.T) {
 		t.Skip("not a child")
 	}
 	xkbHome, _ = os.Getwd()
-	cases := xkbReadCases(t, inp)
 	from, _ := strconv.Atoi(os.Getenv("XKB_CHILD_FROM"))
+	to, _ := strconv.Atoi(os.Getenv("XKB_CHILD_TO"))
+	cases := xkbReadCasesFrom(t, inp, from, to)
 	runs, _ := strconv.Atoi(os.Getenv("XKB_CHILD_RUNS"))
 	pass, _ := strconv.Atoi(os.Getenv("XKB_CHILD_PASS"))
 	work := os.Getenv("VERIF_WORK")
@@ -582,8 +592,12 @@ func TestVerifXkbChild(t *testing.T) {
 	defer outf.Close()
 	enc := json.NewEncoder(outf)
 	restore := xkbGlobals()
-	for i := from; i < len(cases); i++ {
-		for r := 0; r < runs; r++ {
+	for i := from; i < to && i < len(cases); i++ {
+		n := runs
+		if pass == 0 && cases[i].Runs > 0 {
+			n = cases[i].Runs
+		}
+		for r := 0; r < n; r++ {
 			dir := xkbRunDir(work, pass, i, r)
 			os.RemoveAll(dir)
 			if err := os.MkdirAll(dir, 0755); err != nil {
@@ -623,20 +637,43 @@ func TestVerifXkbChild(t *testing.T) {
 
 // ---------------------------------------------------------------- parent
 
-// xkbPass runs every case `runs` times in as few child processes as possible; a child that ends inside the code under
-// test is replaced by a fresh one that continues with the next case.
+// xkbPass runs every case `runs` times.  The cases are cut into XKB_PAR slices, each handled by a chain of child
+// processes: a child that ends inside the code under test is replaced by a fresh one that continues with the next case.
 func xkbPass(t *testing.T, work string, casesPath string, cases []xkbCase, pass, runs int) [][]map[string]interface{} {
 	res := make([][]map[string]interface{}, len(cases))
-	outp := filepath.Join(work, fmt.Sprintf("xkb-%s-child%d.out", xkbTag, pass))
+	par := xkbEnvInt("XKB_PAR", 4)
+	if par > len(cases) {
+		par = len(cases)
+	}
+	if par < 1 {
+		par = 1
+	}
+	errs := make(chan error, par)
+	for w := 0; w < par; w++ {
+		lo, hi := len(cases)*w/par, len(cases)*(w+1)/par
+		go func(w, lo, hi int) {
+			errs <- xkbChain(work, casesPath, cases, res, pass, runs, w, lo, hi)
+		}(w, lo, hi)
+	}
+	for w := 0; w < par; w++ {
+		if err := <-errs; err != nil {
+			t.Fatal(err)
+		}
+	}
+	return res
+}
+
+func xkbChain(work string, casesPath string, cases []xkbCase, res [][]map[string]interface{}, pass, runs, w, lo, hi int) error {
+	outp := filepath.Join(work, fmt.Sprintf("xkb-%s-child%d_%d.out", xkbTag, pass, w))
 	os.Remove(outp)
 	defer os.Remove(outp)
-	from := 0
+	from := lo
 	var offset int64
-	for from < len(cases) {
-		cmd := exec.Command(os.Args[0], "-test.run", "^TestVerifXkbChild$", "-test.timeout", "600s")
+	for from < hi {
+		cmd := exec.Command(os.Args[0], "-test.run", "^TestVerifXkbChild$", "-test.timeout", "1200s")
 		cmd.Dir = xkbHome
 		cmd.Env = append(os.Environ(), "XKB_CHILD_IN="+casesPath, "XKB_CHILD_OUT="+outp, "XKB_CHILD_FROM="+strconv.Itoa(from),
-			"XKB_CHILD_RUNS="+strconv.Itoa(runs), "XKB_CHILD_PASS="+strconv.Itoa(pass))
+			"XKB_CHILD_TO="+strconv.Itoa(hi), "XKB_CHILD_RUNS="+strconv.Itoa(runs), "XKB_CHILD_PASS="+strconv.Itoa(pass))
 		done := make(chan error, 1)
 		var msg []byte
 		go func() {
@@ -647,18 +684,18 @@ func xkbPass(t *testing.T, work string, casesPath string, cases []xkbCase, pass,
 		var cerr error
 		select {
 		case cerr = <-done:
-		case <-time.After(10 * time.Minute):
+		case <-time.After(20 * time.Minute):
 			cmd.Process.Kill()
-			t.Fatalf("harness: child process timed out")
+			return fmt.Errorf("harness: child process timed out")
 		}
 		exitErr, exited := cerr.(*exec.ExitError)
 		if cerr != nil && !exited {
-			t.Fatalf("harness: child process could not be run: %v", cerr)
+			return fmt.Errorf("harness: child process could not be run: %v", cerr)
 		}
 		// read what this child appended
 		f, err := os.Open(outp)
 		if err != nil {
-			t.Fatalf("harness: child wrote nothing: %v\n%s", err, msg)
+			return fmt.Errorf("harness: child wrote nothing: %v\n%s", err, msg)
 		}
 		f.Seek(offset, 0)
 		sc := bufio.NewScanner(f)
@@ -669,7 +706,8 @@ func xkbPass(t *testing.T, work string, casesPath string, cases []xkbCase, pass,
 			offset += int64(len(sc.Bytes())) + 1
 			var rec xkbRec
 			if err := json.Unmarshal(sc.Bytes(), &rec); err != nil {
-				t.Fatalf("harness: bad child record: %v", err)
+				f.Close()
+				return fmt.Errorf("harness: bad child record: %v", err)
 			}
 			if rec.Begin {
 				open, openR = rec.I, rec.R
@@ -681,12 +719,12 @@ func xkbPass(t *testing.T, work string, casesPath string, cases []xkbCase, pass,
 		f.Close()
 		if cerr == nil {
 			if open >= 0 {
-				t.Fatalf("harness: child ended normally inside case %d", open)
+				return fmt.Errorf("harness: child ended normally inside case %d", open)
 			}
 			break
 		}
 		if open < 0 {
-			t.Fatalf("harness: child failed outside the code under test: %v\n%s", cerr, msg)
+			return fmt.Errorf("harness: child failed outside the code under test: %v\n%s", cerr, msg)
 		}
 		// the process ended inside the code under test: observe what it left behind
 		out := map[string]interface{}{"res": "exit", "code": exitErr.ExitCode()}
@@ -704,7 +742,7 @@ func xkbPass(t *testing.T, work string, casesPath string, cases []xkbCase, pass,
 		res[open] = append(res[open], out)
 		from = open + 1
 	}
-	return res
+	return nil
 }
 
 func xkbEnvInt(name string, def int) int {
